@@ -82,6 +82,7 @@ class TU:
             f.write(text)
         self.entries = list(em.entries)
         self.unmodelled = list(em.unmodelled)
+        self.uses_threads = ir2c.THREAD_START in mod.funcs      # cooperative thread model (C11): native builds link rt/native_threads.cpp
         defined = [f.name for f in mod.funcs.values() if not f.is_decl]
         dm = demangle(defined)
         self.functions = sorted(set(dm[n] for n in defined))
@@ -89,7 +90,7 @@ class TU:
         self.ir_lines = sum(1 for _ in open(self.ll))
         self.timing['translate_s'] = round(time.time() - t1, 2)
         t2 = time.time()
-        rc, out, err, dt = run(['goto-cc', '-D__CPROVER__', '-I' + os.path.join(VERIF, 'rt'), '-c', self.c, '-o', self.gb])
+        rc, out, err, dt = run(['goto-cc', '-D__CPROVER__'] + (['-DVF_DISCIPLINE'] if 'VF_DISCIPLINE' in self.defines else []) + ['-I' + os.path.join(VERIF, 'rt'), '-c', self.c, '-o', self.gb])
         if rc != 0:
             raise BuildError('goto-cc failed on %s:\n%s' % (self.c, (out + err)[-4000:]))
         self.timing['gotocc_s'] = round(time.time() - t2, 2)
@@ -121,6 +122,8 @@ class TU:
             srcs.append(os.path.join(VERIF, 'rt', 'native_new.cpp'))
         else:
             srcs.append(os.path.join(VERIF, 'rt', 'native_new.cpp'))
+        if getattr(self, 'uses_threads', False):
+            srcs.append(os.path.join(VERIF, 'rt', 'native_threads.cpp'))
         rc, out, err, dt = run(['g++'] + flags + ['-D' + d for d in self.defines] + srcs + ['-o', exe])
         if rc != 0:
             raise BuildError('g++ native build failed:\n' + err[-4000:])
